@@ -4,7 +4,8 @@
 id=$1; shift
 patch=/verif/seeded/$id/patch.diff
 wt=$(mktemp -d /tmp/kverif-mwt-XXXXXX)
-git -C /repo worktree add -q --detach $wt HEAD || exit 2
+for try in 1 2 3 4 5; do git -C /repo worktree add -q --detach $wt HEAD 2>/dev/null && break; sleep $((RANDOM % 3 + 1)); done
+[ -e $wt/.git ] || { echo "$id: could not create a worktree"; exit 2; }
 trap 'git -C /repo worktree remove --force '$wt' 2>/dev/null; rm -rf '$wt' /tmp/kverif-ev-'$id'' EXIT
 cp /repo/src/kio/_version.py $wt/src/kio/_version.py 2>/dev/null
 git -C $wt apply $patch || { echo "$id: patch does not apply to HEAD"; exit 2; }
